@@ -303,18 +303,10 @@ def _op_child(case, tmp):
     vid = lambda k: keys0.index(k)
     mem = backing == 'mem'
     # ---- input-side facts for the Coq descriptor
-    desc = ['Clean', OPS_CLEAN.index(op) if op in OPS_CLEAN else 99]
-    tflag = 'TFLAG' in f.variables
-    if op in ('gettimes', 'gettimes-bounds') and tflag:
-        desc = ['GetTimesTflag', mem, bool((np.asarray(f.variables['TFLAG'][...])[:, 0, 0] == -635).any()), vid('TFLAG')]
-    if op == 'val2idx-bounds':
-        xv = np.asarray(f.variables['x'][...])
-        dv = np.diff(xv) / 2
-        desc = ['Val2idxBounds', mem, 'x_bounds' in f.variables, bool((dv == dv[0]).all()), xv.dtype.kind == 'f', vid('x')]
-    if op == 'time2idx-bounds':
-        tv = np.asarray(f.variables['time'][...])
-        dv = np.diff(tv) / 2
-        desc = ['Val2idxBounds', mem, False, bool((dv == dv[0]).all()), tv.dtype.kind == 'f', vid('time')]
+    QUERIES = ('gettimes', 'gettimes-bounds', 'date2num', 'time2idx', 'time2idx-bounds', 'val2idx-nearest', 'val2idx-bounds',
+               'repr', 'dump', 'save')
+    allops = OPS_CLEAN + [o for o in OPS_DEFECT if o not in OPS_CLEAN]
+    desc = ['Query' if op in QUERIES else 'Clean', allops.index(op) if op in allops else 99]
     if op == 'eval-name':
         desc = ['EvalName', vid('A')]
     if op == 'eval-view':
@@ -418,17 +410,12 @@ def coq_term(case, obs):
         ob = '[' + '; '.join('[' + '; '.join('None' if x is None else '(Some %d%%nat)' % x for x in o) + ']' for o in obs['obs']) + ']'
         return '(HCase %s %s %s %s)' % (gs, refs, ob, C.natlist(obs['slots']))
     d = obs['desc']
-    b = C.cbool
-    if d[0] == 'Clean':
-        o = '(Clean %d%%nat)' % d[1]
+    if d[0] in ('Clean', 'Query'):
+        o = '(%s %d%%nat)' % (d[0], d[1])
     elif d[0] in ('EvalName', 'EvalView'):
         o = '(%s %d%%nat)' % (d[0], d[1])
-    elif d[0] in ('Getvarpnc', 'SliceDim'):
-        o = '(%s %s)' % (d[0], C.natlist(d[1]))
-    elif d[0] == 'GetTimesTflag':
-        o = '(GetTimesTflag %s %s %d%%nat)' % (b(d[1]), b(d[2]), d[3])
     else:
-        o = '(Val2idxBounds %s %s %s %s %d%%nat)' % (b(d[1]), b(d[2]), b(d[3]), b(d[4]), d[5])
+        o = '(%s %s)' % (d[0], C.natlist(d[1]))
     return '(ACase %s %s %s %s)' % (o, C.natlist(obs['aliased']), C.natlist(obs['mutated']), C.natlist(obs['later']))
 
 
@@ -504,15 +491,16 @@ def _wellformed(steps):
     return True
 
 
-LEVEL_TEXT = ('Theorems (Props/C05.v, all closed under the global context). Handle table (Model/Handles.v): for the repaired discipline every '
-              'object that received no close reads its own file after ANY sequence of opens / closes / finalisers (C05_close_local_spec, induction '
-              'with an ownership invariant); for the code as it is the statement is refuted (C05_close_local_refuted: another open file becomes '
-              'invalid; C05_close_wrong_data_refuted: it silently returns another file\'s data) and proved on the safe histories '
-              '(C05_close_local_partial). Buffer heap (Model/Alias.v): fresh outputs give isolation under any later writes for any heap and cell '
-              'type (C05_fresh_outputs_isolated, C05_isolation_spec), hence for every call whose catalogued effects are empty '
-              '(C05_isolation_partial); eval(\'B = A\') and val2idx(method=\'bounds\') refute the full statement (C05_result_alias_refuted, '
-              'C05_query_mutates_refuted). Tie H: handle histories (slot numbers, what every referenced object reads after every step) and the '
-              'observed mutated / shared / later-changed buffer sets of 30 calls vs. the model.')
+LEVEL_TEXT = ('Theorems (Props/C05.v, all closed under the global context). Handle table (Model/Handles.v, the code since fix '
+              'C05-close-isopen-guard): every object that received no close reads its own file after ANY sequence of opens / closes / finalisers '
+              '(C05_close_local, full strength, induction with the ownership invariant C05_slot_ownership), one more close of any object leaves '
+              'what every other open object reads untouched (C05_close_is_local_step), a repeated close is a no-op (C05_close_idempotent). Buffer '
+              'heap (Model/Alias.v): fresh outputs give isolation under any later writes for any heap and cell type (C05_fresh_outputs_isolated, '
+              'C05_isolation_spec), hence for every call whose catalogued effects are empty (C05_isolation_partial), which now includes every query '
+              '(C05_queries_pure, full strength since fixes C05-getTimes-copy and the val2idx copies); eval(\'B = A\') refutes the full statement for '
+              'the transformations (C05_result_alias_refuted; known findings eval / getvarpnc / slice_dim). Tie H: handle histories (slot numbers, '
+              'what every referenced object reads after every step) and the observed mutated / shared / later-changed buffer sets of 30 calls vs. the '
+              'model; the witnesses of the repaired defects run first on every run (corpus/C05).')
 LEVEL_NOTE = ('Trusted: Coq kernel + vm_compute; harness; netCDF-C slot allocation (checked per object); np.shares_memory. The effect catalogue '
               'impl_effs is hand-written from the code and tied by F only. Not covered: spontaneous GC timing; updatemeta(attdict) mutating the '
               'caller\'s dict; interpvars / interpDimension / extract; arguments other than files (selectors, arrays) being modified; time2t.')
